@@ -1471,6 +1471,13 @@ func (ro *RedisOutput) bisyncStartPoint(ctx context.Context, runIDs []string) (S
 			}
 			if ro.bisyncRootCheckpointNewer(rootStartPoint, sp, runIDs) {
 				ro.logger.Infof("bisync startpoint parallel root override: checkpoint(%s), root(%+v), frontier(%+v)", checkpointName, rootStartPoint, sp)
+				// The root checkpoint restarts the unit numbering at 1. The stored frontier and the
+				// journal number the units of the abandoned position : left behind, a later start
+				// would chain the new journal records onto the old sequence numbers (or the other
+				// way round) and resume behind units that were never committed.
+				if err := ro.dropBisyncFrontierState(cli, checkpointName, slots); err != nil {
+					return StartPoint{}, 0, false, err
+				}
 				return rootStartPoint, 0, true, nil
 			}
 			// Recovery may consume the first post-snapshot journal records to rebuild
@@ -1597,6 +1604,18 @@ func (ro *RedisOutput) dropBisyncJournal(cli client.Redis, checkpointName string
 		bisyncCommitGCCounter.Add(float64(records), ro.cfg.InputName)
 	}
 	return nil
+}
+
+// dropBisyncFrontierState removes the frontier recovery state of a namespace whose root checkpoint
+// has taken over : the journal, then the frontier snapshot. The snapshot goes last : as long as it
+// exists an interrupted removal is taken up again by the next start (the root still overrides it),
+// and a journal is never left without the snapshot its sequence numbers continue.
+func (ro *RedisOutput) dropBisyncFrontierState(cli client.Redis, checkpointName string, slots []uint16) error {
+	if err := ro.dropBisyncJournal(cli, checkpointName, slots); err != nil {
+		return err
+	}
+	_, err := cli.Do("del", checkpoint.BisyncFrontierKey(checkpointName))
+	return err
 }
 
 func (ro *RedisOutput) bisyncRootCheckpointNewer(root StartPoint, selected StartPoint, runIDs []string) bool {
